@@ -15,15 +15,20 @@ open Gedcom Gedcom.Match Gedcom.MatchSrc
 /-- the translated facts lie inside the fragment, the sort is the stable one, and the loops have
     exactly the statement sequences the model was written against: winner loop = threshold test
     with `break`, then the `found` test on both sides with `continue`, then send and the two
-    marks; pointer pass = sentA guard, ByPointer look-up, nil guard, sentB guard, forced score,
-    acceptance test, and on acceptance adjust / send a certain pair / store both pointers -/
+    marks; pointer pass = (in the worker pool, per left index) sentA guard, ByPointer look-up,
+    nil guard, sentB guard, forced score, acceptance test, which stores the certain pair at its
+    left index; then, sequentially in the order of the left slice, nil / sentA / sentB guards,
+    adjust, send, store both pointers (since the fix "a right individual is matched by pointer
+    only once, whatever the number of jobs") -/
 theorem match_source_shape :
     Generated.srcSortIsStable = true ∧ Generated.srcLess.ok = true ∧ Generated.srcBreak.ok = true ∧
     Generated.srcAccept.ok = true ∧
     Generated.srcWinnerLoop = ["let:minW", "break-if", "skip-if-found:Left|Right", "send", "mark:Left", "mark:Right"] ∧
     Generated.srcPointerLoop = ["bind:a", "skip-if-sentA(a)", "lookup:b=ByPointer(a)", "skip-if-nil(b)",
       "skip-if-sentB(b)", "score:forced", "accept-if"] ∧
-    Generated.srcAcceptBody = ["adjust", "send:certain(a,b)", "storeA(a)", "storeB(b)"] := by
+    Generated.srcAcceptBody = ["store-match:certain(a,b)@leftI"] ∧
+    Generated.srcPointerEmit = ["skip-if-nil(match)", "skip-if-sentA(match.Left)", "skip-if-sentB(match.Right)",
+      "adjust", "send:match", "storeA(match.Left)", "storeB(match.Right)"] := by
   decide
 
 def envSort (i j : Rat) : Operand → Rat
@@ -55,7 +60,12 @@ def envPtr (score prefer : Rat) : Operand → Rat
   | .score => score | .prefer => prefer | _ => 0
 
 /-- one iteration of the model's pointer pass is the source's: sentA guard, look-up by pointer,
-    nil guard, sentB guard, then the translated `>= PreferPointerAbove` test on the forced score -/
+    nil guard, sentB guard, then the translated `>= PreferPointerAbove` test on the forced score.
+    The model's pass is sequential in the order of the left list with the sent sets threaded
+    through; the source tests the guards in the pool against the sets the pass started with and
+    again — against the current sets, with the stores — when it emits the stored matches in
+    left-slice order.  The current sets contain the initial ones, so the emitted pairs are those
+    of the model's single pass, for every number of jobs. -/
 theorem pointer_pass_is_the_source (R : List Person) (scoreT : Nat → Nat → Rat) (prefer : Rat)
     (a : Person) (as : List Person) (s : Sent) :
     pointerJobs R scoreT prefer (a :: as) s =
